@@ -20,7 +20,7 @@ import (
 // C12 — any Writer call sequence ends in a correct stream or an error.
 
 type CallJ struct {
-	Op   string       `json:"op"` // value fieldname annotation annotations begin:K end:K finish isinstruct badtoken-fieldname badtoken-annotation badtoken-symbol
+	Op   string       `json:"op"` // value fieldname annotation annotations begin:K end:K finish isinstruct badtoken-fieldname badtoken-annotation badtoken-symbol badnull
 	Val  *model.Value `json:"val,omitempty"`
 	Syms []model.Sym  `json:"syms,omitempty"`
 	Pick int          `json:"pick,omitempty"`
@@ -112,6 +112,9 @@ func doCall(w ion.Writer, c CallJ) error {
 		return w.Annotation(badToken)
 	case "badtoken-symbol":
 		return w.WriteSymbol(badToken)
+	case "badnull":
+		// a Type value that names no Ion type
+		return w.WriteNullType(ion.Type(200 + c.Pick%50))
 	case "begin:list":
 		return w.BeginList()
 	case "begin:sexp":
@@ -260,6 +263,8 @@ func (a *automaton) apply(i int, c CallJ) {
 		a.badPend = true
 	case "badtoken-symbol":
 		a.violation = fmt.Sprintf("call %d: WriteSymbol with a token that has neither text nor ID succeeded", i)
+	case "badnull":
+		a.violation = fmt.Sprintf("call %d: WriteNullType with a Type that names no Ion type succeeded", i)
 	case "finish":
 		if len(a.stack) != 0 {
 			a.violation = fmt.Sprintf("call %d: Finish succeeded inside an open container", i)
@@ -454,7 +459,7 @@ func genC12(t *rapid.T) C12Case {
 				call = CallJ{Op: "finish"}
 			}
 		case k == 18:
-			call = CallJ{Op: gen.Pick(t, []string{"isinstruct", "fieldname", "badtoken-fieldname", "badtoken-annotation", "badtoken-symbol"})}
+			call = CallJ{Op: gen.Pick(t, []string{"isinstruct", "fieldname", "badtoken-fieldname", "badtoken-annotation", "badtoken-symbol", "badnull"})}
 			if call.Op == "fieldname" {
 				call.Syms = []model.Sym{c12Sym(t)}
 			}
